@@ -271,6 +271,18 @@ func genC11(t *rapid.T, d map[string]*dictPair) *c11case {
 		if place == -1 {
 			cs.rest = append(cs.rest, fixwire.F(c11CustomHeaderTag, "hint"))
 		}
+		// XMLData with its length (header fields 212/213) may also come further down the message,
+		// e.g. directly after a group; the payload may contain SOH and field look-alikes
+		xmlAfter := -1
+		if !cs.hasXML && len(cs.items) > 0 && rapid.IntRange(0, 3).Draw(t, "xml-in-body-region") == 0 {
+			xmlAfter = rapid.IntRange(0, len(cs.items)-1).Draw(t, "xml-after-item")
+			for i, it := range cs.items {
+				if it.IsGroup && len(it.Entries) > 0 && rapid.Bool().Draw(t, "xml-after-this-group") {
+					xmlAfter = i
+					break
+				}
+			}
+		}
 		for i, it := range cs.items {
 			for _, f := range specxml.Flatten([]*specxml.Item{it}) {
 				cs.rest = append(cs.rest, fixwire.F(f.Tag, f.Value))
@@ -282,6 +294,14 @@ func genC11(t *rapid.T, d map[string]*dictPair) *c11case {
 				cs.rest = append(cs.rest, fixwire.F(c11CustomHeaderTag, "hint"))
 				if it.IsGroup {
 					c11().Class("custom-header-field-right-after-group")
+				}
+			}
+			if i == xmlAfter {
+				data := rapid.SliceOfN(rapid.SampledFrom([]byte{1, '<', 'a', '>', '=', '1', '0', '5', '8', 1, 'x'}), 1, 30).Draw(t, "xmldata-late")
+				cs.rest = append(cs.rest, fixwire.F(212, strconv.Itoa(len(data))), fixwire.Field{Tag: 213, Value: data})
+				cs.hasXML = true
+				if it.IsGroup {
+					c11().Class("xmldata-right-after-group")
 				}
 			}
 		}
